@@ -128,6 +128,21 @@ def bounded(ctx):
                             viol.append(dict(name="slice_%s_%s_%s" % (s, a, b), what="CircularRecord(%r, topology=%r)[%r:%r] -> %s %r topology=%r" % (
                                 s, rec_.annotations.get("topology"), a, b, type(sl).__name__, str(sl.seq), sl.annotations.get("topology")),
                                              case=dict(seq=s, lo=a, hi=b, topology=rec_.annotations.get("topology")), expected=s[a:b], observed=str(sl.seq)))
+            # stepped slices too are ordinary linear slices
+            for (a, b, c) in [(None, None, 2), (None, None, -1), (1, None, 2), (None, -1, 3), (n, 0, -2), (0, n, n), (-n, None, 1), (None, None, -n - 1)]:
+                for rec_ in (spelled[:2] if c in (2, -1) else spelled[:1]):
+                    evals += 1
+                    try:
+                        sl = rec_[a:b:c]
+                        ok = (type(sl) is SeqRecord and str(sl.seq) == s[a:b:c]
+                              and str(sl.annotations.get("topology", "linear")).lower() != "circular")
+                        got = "%s %r topology=%r" % (type(sl).__name__, str(sl.seq), sl.annotations.get("topology"))
+                    except Exception as e:
+                        ok, got = False, "raised %r" % (e,)
+                    if not ok:
+                        viol.append(dict(name="stepslice_%s_%s_%s_%s" % (s, a, b, c), what="CircularRecord(%r, topology=%r)[%r:%r:%r] -> %s" % (
+                            s, rec_.annotations.get("topology"), a, b, c, got),
+                                         case=dict(seq=s, lo=a, hi=b, step=c, topology=rec_.annotations.get("topology")), expected=s[a:b:c], observed=got))
             if len(samples) < 2 and n == 3:
                 samples.append(dict(seq=s, query=s[-1] + s[0], contained=(s[-1] + s[0]) in rec))
     # declared linear cannot be wrapped; wrapping copies
